@@ -748,6 +748,12 @@ def normalise(repo, finfo, keep=(), helpers=True, aliases=True, comps=True, ifex
         if not changed:
             break
     ast.fix_missing_locations(fn)
+    if aliases and getattr(finfo, "module", None) is not None:
+        # a call through a local that stood for a class or function (`make = pkg.Transition; make(name=...)`) is now a call
+        # of that class: its keywords are put into the positional spelling like every other call of the package
+        from . import callnorm
+
+        callnorm.canonicalise(repo, ("function", fn, finfo.module, finfo.cls))
     return fn, used
 
 
